@@ -1,7 +1,7 @@
 (* C05 -- Droop proportionality for solid coalitions.
    Proved: the ONE-SEAT clause ("with one seat, a candidate ranked first by more than half of the ballots always wins")
-   for wigm-prf and the Scottish rule under Fixed / integer / Guarded(guard 0), as whole-run theorems
-   (C05_one_seat_majority_wins_partial, C05_one_seat_majority_wins_scotland_partial).
+   for wigm, wigm-prf and the Scottish rule under Fixed / integer / Guarded(guard 0), as whole-run theorems
+   (C05_one_seat_majority_wins_partial, ..._scotland_partial, ..._wigm_partial).
    The general coalition statement is not proved (DESIGN C05: the coalition invariant is the largest single proof of the
    plan); it is decided by the exhaustive coalition oracle on every generated election (all subsets S, all k)
    and the final-scope correspondence.  Also machine-checked: the property is FALSE of the faithful model for
@@ -67,3 +67,14 @@ Theorem C05_one_seat_majority_wins_scotland_partial : forall A S (ZL : zlike A S
   forall c, In c (cands s) -> cid c = m -> cst c = Elected.
 Proof. exact (fun A S ZL cfg _ Hex _ => count_majority_scotland A S ZL cfg Hex). Qed.
 Print Assumptions C05_one_seat_majority_wins_scotland_partial.
+
+(* ... and under the parametric wigm rule with any of its options (integer_quota, defeat_batch) *)
+Theorem C05_one_seat_majority_wins_wigm_partial : forall A S (ZL : zlike A S) cfg,
+  cf_method cfg = MWigm -> exact A = false -> raw ZL (epsilon A) = 1 -> cf_nseats cfg = 1 ->
+  forall pr m fuel s k, wf_profile pr -> cf_nballots cfg = ballot_total pr ->
+  (exists pc, In pc (pr_cands pr) /\ pc_cid pc = m /\ pc_withdrawn pc = false) ->
+  ballot_total pr < 2 * first_prefs pr m ->
+  exec (@crashed A) fuel (count_cmd A cfg RWigm) (init_state A cfg pr) = Some (s, k) -> k <> Abort ->
+  forall c, In c (cands s) -> cid c = m -> cst c = Elected.
+Proof. exact (fun A S ZL cfg _ => count_majority_wigm A S ZL cfg). Qed.
+Print Assumptions C05_one_seat_majority_wins_wigm_partial.
